@@ -193,4 +193,188 @@ theorem unpack_spec_fmt3 (s t : State) (o : Nat) (h : WF3 s o) :
   have hc : s.sourceid_len = 0 ∨ s.sourceid_len = 1 ∨ s.sourceid_len = 2 ∨ s.sourceid_len = 3 ∨ s.sourceid_len = 4 := by omega
   rcases hc with hc | hc | hc | hc | hc <;> simp only [hc] at hsid hseq ⊢ <;> simp at hsid hseq ⊢ <;> omega
 
+/-! ### state (C13) and accept/reject (C09) lemmas -/
+
+theorem udp_unpack_state_independent (t : State) (buf : Bytes) (h : (unpack t buf).2 = .ok ()) :
+    unpack t buf = unpack fresh buf := by
+  revert h
+  simp only [unpack]
+  repeat' split
+  all_goals simp_all
+
+theorem udp_pack_fields (s : State) :
+    (pack s).1 = s ∨ (pack s).1 = { s with packetsize := some (s.payload.length / 4) } := by
+  simp only [pack]
+  repeat' split
+  all_goals simp
+
+theorem udp_pack_ignores_packetsize (s : State) (ps : Option Nat) :
+    (pack { s with packetsize := ps }).2 = (pack s).2 := by
+  simp only [pack, srcField]
+  repeat' split
+  all_goals simp_all
+
+theorem udp_pack_not2 (s : State) (h : s.version ≠ 2) : (pack s).1 = s := by
+  simp only [pack]
+  repeat' split
+  all_goals simp_all
+
+/-- `pack` in format 2, spelled out -/
+theorem udp_pack_v2 (s : State) (h : s.version = 2) :
+    pack s =
+      match structPack CH10_UDP_HEADER_FORMAT2 [s.sequence >>> 8, s.sequence &&& 0xFF, (s.type <<< 4) + 2] with
+      | .error e => (s, .error e)
+      | .ok hdr =>
+        match structPack UDP_pack_fmt0 [s.segmentoffset >>> 16, (s.payload.length / 4) >>> 16,
+            (s.payload.length / 4) &&& 0xFFFF, s.segmentoffset &&& 0xFFFF, s.channelID] with
+        | .error e => ({ s with packetsize := some (s.payload.length / 4) }, .error e)
+        | .ok ext => ({ s with packetsize := some (s.payload.length / 4) }, .ok (hdr ++ ext ++ s.payload)) := by
+  simp [pack, h]
+  generalize structPack CH10_UDP_HEADER_FORMAT2 _ = x
+  cases x with
+  | error e => rfl
+  | ok hdr =>
+    simp only
+    generalize structPack UDP_pack_fmt0 _ = y
+    cases y <;> simp
+
+theorem udp_pack_idempotent (s : State) : pack (pack s).1 = pack s := by
+  by_cases h : s.version = 2
+  · rw [udp_pack_v2 s h]
+    cases h1 : structPack CH10_UDP_HEADER_FORMAT2 [s.sequence >>> 8, s.sequence &&& 0xFF, (s.type <<< 4) + 2] with
+    | error e => simp only; rw [udp_pack_v2 s h, h1]
+    | ok hdr =>
+      simp only
+      cases h2 : structPack UDP_pack_fmt0 [s.segmentoffset >>> 16, (s.payload.length / 4) >>> 16,
+            (s.payload.length / 4) &&& 0xFFFF, s.segmentoffset &&& 0xFFFF, s.channelID] with
+      | error e => simp only; rw [udp_pack_v2 { s with packetsize := some (s.payload.length / 4) } h]; simp only [h1, h2]
+      | ok ext => simp only; rw [udp_pack_v2 { s with packetsize := some (s.payload.length / 4) } h]; simp only [h1, h2]
+  · rw [udp_pack_not2 s h]
+
+/-- the first byte of a buffer: format in the low nibble, type / source-id length in the high nibble -/
+def byte0 (buf : Bytes) : Nat := decInt false (buf.take 1)
+
+theorem byte0_lt (buf : Bytes) : byte0 buf < 256 := by
+  have := decInt_lt false (buf.take 1)
+  have h2 : (buf.take 1).length ≤ 1 := by simp; omega
+  unfold byte0
+  calc _ < 256 ^ (buf.take 1).length := this
+    _ ≤ 256 ^ 1 := Nat.pow_le_pow_right (by omega) h2
+
+theorem udp_accepts_iff (t : State) (buf : Bytes) :
+    (unpack t buf).2 = .ok () ↔
+      4 ≤ buf.length ∧
+      ((byte0 buf % 16 = 1 ∧ byte0 buf / 16 ≠ 1) ∨
+       (byte0 buf % 16 = 3 ∧ byte0 buf / 16 ≤ 4 ∧ 8 ≤ buf.length) ∨
+       (byte0 buf % 16 ≠ 1 ∧ byte0 buf % 16 ≠ 3 ∧ 12 ≤ buf.length)) := by
+  have hfl := byte0_lt buf
+  unfold byte0 at *
+  generalize hfb : decInt false (List.take 1 buf) = fb at *
+  by_cases hlen : 4 ≤ buf.length
+  · simp only [unpack, structUnpackFrom, CH10_UDP_HEADER_FORMAT1, Fmt.size, codesSize, Code.size, Nat.zero_add, hlen,
+      if_true, unpackCodes, List.drop_zero, List.drop_drop, Nat.reduceAdd, hfb, TYPE_SEG, CH10_UDP_HEADER_LENGTH]
+    bits_simp
+    by_cases h1 : fb % 16 = 1
+    · simp only [h1, if_true]
+      by_cases h2 : fb / 16 = 1 <;> simp [h2] <;> omega
+    · simp only [h1, if_false]
+      by_cases h3 : fb % 16 = 3
+      · simp only [h3, if_true, UDP_unpack_fmt2, codesSize, Code.size, unpackCodes, srcSplit]
+        by_cases h8 : 4 + (4 + 0) ≤ buf.length
+        · simp only [h8, if_true]
+          have : fb / 16 = 0 ∨ fb / 16 = 1 ∨ fb / 16 = 2 ∨ fb / 16 = 3 ∨ fb / 16 = 4 ∨ 4 < fb / 16 := by omega
+          rcases this with h | h | h | h | h | h
+          · simp [h] <;> omega
+          · simp [h] <;> omega
+          · simp [h] <;> omega
+          · simp [h] <;> omega
+          · simp [h] <;> omega
+          · have n0 : ¬ fb / 16 = 0 := by omega
+            have n1 : ¬ fb / 16 = 1 := by omega
+            have n2 : ¬ fb / 16 = 2 := by omega
+            have n3 : ¬ fb / 16 = 3 := by omega
+            have n4 : ¬ fb / 16 = 4 := by omega
+            simp [n0, n1, n2, n3, n4] <;> omega
+        · simp [h8] <;> omega
+      · simp only [h3, if_false, CH10_UDP_HEADER_FORMAT2, UDP_unpack_fmt0, UDP_unpack_fmt1, codesSize, Code.size,
+          unpackCodes, hlen, if_true]
+        by_cases h8 : 5 + (1 + (2 + 0)) ≤ buf.length
+        · by_cases h12 : 4 + (1 + (1 + (2 + (2 + (2 + 0))))) ≤ buf.length <;> simp [h8, h12] <;> omega
+        · have h12 : ¬ 4 + (1 + (1 + (2 + (2 + (2 + 0))))) ≤ buf.length := by omega
+          simp [h8] <;> omega
+  · simp only [unpack, structUnpackFrom, CH10_UDP_HEADER_FORMAT1, Fmt.size, codesSize, Code.size]
+    have : ¬ (0 + (1 + (1 + (2 + 0))) ≤ buf.length) := by omega
+    simp only [this, if_false]
+    simp <;> omega
+
+/-! ### equality (C14) -/
+
+/-- the bytes (or exception) of `pack`, as a function of the fields it reads -/
+def packR (version type channelID channelsequence sequence segmentoffset sourceid_len sourceid : Nat)
+    (offset_pkt_start : Option Nat) (payload : Bytes) : R Bytes :=
+  (pack { version := version, type := type, channelID := channelID, channelsequence := channelsequence,
+          sequence := sequence, segmentoffset := segmentoffset, packetsize := none, sourceid_len := sourceid_len,
+          sourceid := sourceid, offset_pkt_start := offset_pkt_start, payload := payload }).2
+
+theorem pack_snd (s : State) :
+    (pack s).2 = packR s.version s.type s.channelID s.channelsequence s.sequence s.segmentoffset s.sourceid_len
+      s.sourceid s.offset_pkt_start s.payload := by
+  have := Acra.Lemmas.Ch10UDP.udp_pack_ignores_packetsize s none
+  rw [← this]
+  rfl
+
+/-- fields `pack` does not read, per format -/
+theorem packR_v3 (t t' c c' cs cs' so so' sq sl sid : Nat) (o : Option Nat) (p : Bytes) :
+    packR 3 t c cs sq so sl sid o p = packR 3 t' c' cs' sq so' sl sid o p := by
+  simp only [packR, pack, srcField, TYPE_SEG]
+  simp
+  repeat' split
+  all_goals simp_all
+
+theorem packR_v2 (t c cs cs' sq so sl sl' sid sid' : Nat) (o o' : Option Nat) (p : Bytes) :
+    packR 2 t c cs sq so sl sid o p = packR 2 t c cs' sq so sl' sid' o' p := by
+  simp only [packR, pack, srcField, TYPE_SEG]
+  simp
+  repeat' split
+  all_goals simp_all
+
+theorem packR_other (v t c c' cs cs' sq so so' sl sl' sid sid' : Nat) (o o' : Option Nat) (p : Bytes)
+    (h2 : v ≠ 2) (h3 : v ≠ 3) (h1 : ¬ (t = TYPE_SEG ∧ v = 1)) :
+    packR v t c cs sq so sl sid o p = packR v t c' cs' sq so' sl' sid' o' p := by
+  simp only [packR, pack, srcField, h2, h3, h1, if_false]
+  repeat' split
+  all_goals simp_all
+
+theorem packR_seg (c cs sq so sl sl' sid sid' : Nat) (o o' : Option Nat) (p : Bytes) :
+    packR 1 1 c cs sq so sl sid o p = packR 1 1 c cs sq so sl' sid' o' p := by
+  simp only [packR, pack, srcField, TYPE_SEG]
+  simp
+  repeat' split
+  all_goals simp_all
+
+theorem udp_eq_sound (a b : State) (h : eq a b = true) : (pack a).2 = (pack b).2 := by
+  rw [pack_snd a, pack_snd b]
+  simp only [eq] at h
+  by_cases h1 : a.type = TYPE_SEG ∧ a.version = 1
+  · simp only [h1, and_self, if_true, Bool.and_eq_true, beq_iff_eq] at h
+    obtain ⟨⟨⟨⟨⟨⟨e1, e2⟩, e3⟩, e4⟩, e5⟩, e6⟩, e7⟩ := h
+    rw [← e1, ← e2, ← e3, ← e4, ← e5, ← e6, ← e7, h1.1, h1.2]
+    exact packR_seg _ _ _ _ _ _ _ _ _ _ _
+  · simp only [h1, if_false] at h
+    by_cases h2 : a.version = 2
+    · simp only [h2, if_true, Bool.and_eq_true, beq_iff_eq] at h
+      obtain ⟨⟨⟨⟨⟨⟨⟨e1, e2⟩, e3⟩, e4⟩, e5⟩, e6⟩, e7⟩, e8⟩ := h
+      rw [← e1, ← e2, ← e3, ← e4, ← e6, ← e8, h2]
+      exact packR_v2 _ _ _ _ _ _ _ _ _ _ _ _ _
+    · simp only [h2, if_false] at h
+      by_cases h3 : a.version = 3
+      · simp only [h3, if_true, Bool.and_eq_true, beq_iff_eq] at h
+        obtain ⟨⟨⟨⟨⟨e1, e2⟩, e3⟩, e4⟩, e5⟩, e6⟩ := h
+        rw [← e1, ← e2, ← e3, ← e4, ← e5, ← e6, h3]
+        exact packR_v3 _ _ _ _ _ _ _ _ _ _ _ _ _
+      · simp only [h3, if_false, Bool.and_eq_true, beq_iff_eq] at h
+        obtain ⟨⟨⟨e1, e2⟩, e3⟩, e4⟩ := h
+        rw [← e1, ← e2, ← e3, ← e4]
+        exact packR_other _ _ _ _ _ _ _ _ _ _ _ _ _ _ _ _ h2 h3 h1
+
 end Acra.Lemmas.Ch10UDP
